@@ -40,6 +40,44 @@ def scope_module(prog):
     return a["module"] if a and a.get("module") else "eval::scope"
 
 
+SCOPESTACK = "eval::scope::ScopeStack"
+
+
+def scope_pushers(prog):
+    """Scope-module functions that take a chain by reference and return a
+    chain onto which they pushed a scope cell (today: new_from_push)."""
+    sm = scope_module(prog)
+    out = []
+    for f in prog.hand_fns():
+        if f.is_closure or f.from_expansion or not f.module.startswith(sm) or not f.locals:
+            continue
+        if f.locals[0] != SCOPESTACK:
+            continue
+        ptys = f.locals[1:f.arg_count + 1]
+        if not any(t.replace("&mut ", "&") == "&" + SCOPESTACK for t in ptys):
+            continue
+        if any((c.res or "").endswith("::push") for c in f.calls()):
+            out.append(f)
+    return out
+
+
+def scope_root_ctors(prog):
+    """Scope-module functions that build a chain from nothing (no chain
+    parameter): the empty root."""
+    sm = scope_module(prog)
+    out = []
+    for f in prog.hand_fns():
+        if f.is_closure or f.from_expansion or not f.module.startswith(sm) or not f.locals:
+            continue
+        if f.locals[0] != SCOPESTACK:
+            continue
+        ptys = f.locals[1:f.arg_count + 1]
+        if any(SCOPESTACK in t for t in ptys):
+            continue
+        out.append(f)
+    return out
+
+
 def value_module(prog):
     a = prog.adts.get("eval::value::Value")
     return a["module"] if a and a.get("module") else "eval::value"
